@@ -703,14 +703,15 @@ def consistency(fs, check_csums=True):
         bb_uninit = bool(gd["flags"] & BG_BLOCK_UNINIT) and csum
         bm = None if bb_uninit else fs.block(gd["block_bitmap"])
         free = 0
+        bb_reported = False
         for c in range((nblk + cr - 1) // cr):
             blocks = range(base + c * cr, min(base + (c + 1) * cr, base + nblk))
             in_use = any((b in own) or (b in owner) for b in blocks)
             if bm is not None:
                 bit = bool(bm[c >> 3] >> (c & 7) & 1)
-                if bit != in_use:
+                if bit != in_use and not bb_reported:
                     add("bbitmap", "group %d cluster %d: bitmap %d, usage %d" % (g, c, bit, in_use))
-                    break
+                    bb_reported = True        # one clause per group; keep counting
             if not in_use:
                 free += 1
         if free != gd["free_blocks"]:
